@@ -55,7 +55,7 @@ FirstFrom(t) == IF Fwd(t) THEN FirstFromF(t, ts[t].cur) ELSE FirstFromB(t, ts[t]
 
 \* one slot of work: book every member, credit once, finish if the effort is reached
 Work(t) ==
-  /\ pc = "run" /\ cur = t /\ ts[t].st = "walk" /\ FirstFrom(t) >= 0
+  /\ pc = "run" /\ cur = t /\ ts[t].st = "walk" /\ ~BoundOutside(t) /\ FirstFrom(t) >= 0
   /\ LET s == FirstFrom(t)
          M == SeqSet(Members(t))
          r1 == Members(t)[1]
@@ -90,16 +90,17 @@ Work(t) ==
   /\ UNCHANGED <<proj, pc>>
 
 RunAway(t) ==
-  /\ pc = "run" /\ cur = t /\ ts[t].st = "walk" /\ FirstFrom(t) < 0
+  /\ pc = "run" /\ cur = t /\ ts[t].st = "walk" /\ (BoundOutside(t) \/ FirstFrom(t) < 0)
   /\ ts' = [ts EXCEPT ![t].st = "failed"] /\ cur' = 0 /\ ld' = 0 /\ UNCHANGED <<proj, used, usage, lim, lsec, pc>>
 
 \* zero-effort leaf without own dates: at its dependency bound (forward) / deadline (backward)
 Milestone(t) ==
   /\ pc = "run" /\ cur = 0 /\ Pending = {} /\ FirstReady(t) /\ T(t).effort = 0
   /\ LET b == IF Fwd(t) THEN BoundF(t) ELSE Deadline(t)
-     IN IF 0 <= b /\ b <= P.N * G
-        THEN ts' = [ts EXCEPT ![t].st = "done", ![t].sched = TRUE, ![t].start = b, ![t].end = b]
-        ELSE ts' = [ts EXCEPT ![t].st = "failed"]          \* dependency bound beyond the horizon
+         outside == b < 0 \/ (IF Fwd(t) THEN b \div G > P.N - 1 ELSE b \div G - 1 > P.N - 1)
+     IN IF ~outside
+        THEN ts' = [ts EXCEPT ![t].st = "done", ![t].sched = TRUE, ![t].start = b, ![t].end = b, ![t].dl = b]
+        ELSE ts' = [ts EXCEPT ![t].st = "failed", ![t].dl = b]          \* dependency bound beyond the horizon
   /\ ld' = 0 /\ UNCHANGED <<proj, used, usage, lim, lsec, cur, pc>>
 
 \* an effort task without resources can never be placed
